@@ -294,7 +294,7 @@ func (s *Scalar) CSelect(cond uint64, u, v *Scalar) error {
 		return errParamNilScalar
 	}
 
-	scalar.CMove(&s.S, cond, &u.S, &v.S)
+	scalar.CMove(&s.S, scalar.IsNonZero(cond), &u.S, &v.S)
 
 	return nil
 }
